@@ -78,7 +78,7 @@ Section Top.
     match goal with |- c_len (gcmd X (fold_left ?g ?l ?H1)) = 0 =>
       assert (RF : RL H1 (fold_left g l H1)); [apply (rl_fold g l) | exact (RF E0)] end.
     intros e Hh. destruct e; [|apply rl_refl].
-    apply (rl_trans _ (drop_fs DF (t_fs t) Hh)); [apply (proj1 (rl_drop DF)) | apply rl_kill_flag].
+    apply (rl_trans _ (drop_fs (dfuel Hh) (t_fs t) Hh)); [apply (proj1 (rl_drop (dfuel _))) | apply rl_kill_flag].
   Qed.
 End Top.
 
